@@ -151,6 +151,17 @@ func (r *replayer) probe(t *Term, typ types.Type, depth int) *pval {
 		}
 		return p
 	case *types.Interface:
+		if types.Identical(typ, types.Universe.Lookup("error").Type()) {
+			// an error value: nil, io.EOF or some other error
+			p := &pval{typ: typ, kind: "error"}
+			np := r.boolLeaf(tb.Eq(tb.Acc(t, 0), tb.Int(0)))
+			isEOF := tb.False()
+			if g := e.ioEOF(r.st); g != nil {
+				isEOF = tb.Eq(t, g)
+			}
+			p.fields = []*pval{np, r.boolLeaf(isEOF)}
+			return p
+		}
 		if !streamLike(u) {
 			r.err = "interface parameter that is not a plain reader/writer: " + typ.String()
 			return nil
@@ -276,6 +287,15 @@ func (r *replayer) goLit(p *pval) string {
 			parts = append(parts, fmt.Sprintf("%s: %s", st.Field(i).Name(), r.goLit(f)))
 		}
 		return fmt.Sprintf("%s{%s}", r.typeStr(p.typ), strings.Join(parts, ", "))
+	case "error":
+		switch {
+		case p.fields[0].bval:
+			return "error(nil)"
+		case p.fields[1].bval:
+			r.imports["io"] = "io"
+			return "error(io.EOF)"
+		}
+		return "error(errGhostTransport)"
 	case "stream":
 		if p.fields[0].bval {
 			return "nil"
@@ -642,7 +662,20 @@ func (e *Engine) tryReplay(or *OblResult, part *FuncResult, repo, dir string) *r
 		case "stream":
 			fmt.Fprintf(&body, "\tvar old_%s %s = cloneGhost(%s)\n", n, r.typeStr(p.Type()), n)
 		case "ptr":
-			fmt.Fprintf(&body, "\told_%s := %s\n\tif %s != nil {\n\t\ttmp_%s := *%s\n\t\told_%s = &tmp_%s\n\t}\n", n, n, n, n, n, n, n)
+			fmt.Fprintf(&body, "\told_%s := %s\n\tif %s != nil {\n\t\ttmp_%s := *%s\n\t\told_%s = &tmp_%s\n", n, n, n, n, n, n, n)
+			// streams and byte slices reachable through the object are copied too
+			if st, ok := pvs[i].fields[1].typ.Underlying().(*types.Struct); ok {
+				for fi, fp := range pvs[i].fields[1].fields {
+					fname := st.Field(fi).Name()
+					switch fp.kind {
+					case "stream":
+						fmt.Fprintf(&body, "\t\tif g := cloneGhost(%s.%s); g != nil {\n\t\t\told_%s.%s = g\n\t\t}\n", n, fname, n, fname)
+					case "bytes":
+						fmt.Fprintf(&body, "\t\tif %s.%s != nil {\n\t\t\told_%s.%s = append(%s{}, %s.%s...)\n\t\t}\n", n, fname, n, fname, r.typeStr(fp.typ), n, fname)
+					}
+				}
+			}
+			body.WriteString("\t}\n")
 		default:
 			fmt.Fprintf(&body, "\told_%s := %s\n", n, n)
 		}
